@@ -525,8 +525,11 @@ def full(shape, fill, what="np.full"):
         if ax != a.axes:
             raise NumpyRaise("ValueError", f"{what}: could not broadcast fill value to shape")
         a.term = as_term(fill)
+        a.dtype = fill.dtype
     else:
         a.term = as_term(fill)
+        if isinstance(fill, int) and not isinstance(fill, bool):
+            a.dtype = "int"         # np.full(shape, 1) is an INTEGER array (the dtype follows the fill value)
     return a
 
 
@@ -934,6 +937,8 @@ def setitem(a: AArr, idx, value):
         if len(res) != len(axes) or any(axis_len(x) != axis_len(y) for x, y in zip(res, axes)):
             raise NumpyRaise("ValueError", "could not broadcast input array into the indexed region")
     vt = as_term(value)
+    if a.dtype == "int" and not (isinstance(value, int) or (isinstance(value, AArr) and value.dtype in ("int", "bool"))):
+        vt = t_fn("trunc", vt)      # NumPy casts on assignment: a float stored into an integer array loses its fraction
     whole = not m and all(is_labelled(x) or x == ONE for x in axes) and [x for x in axes if x != ONE] == [x for x in a.axes if x != ONE]
     if whole and not m:
         a.term = vt
